@@ -258,7 +258,7 @@ def flush(ctx):
         if tmp.status == "discharged":
             dt = (time.time() - t0) / len(pend)
             for (r, q, _) in pend:
-                r.status = "discharged"; r.how = tmp.how + " (batched)"; r.time = dt; r.smt2 = tmp.smt2
+                r.status = "discharged"; r.how = tmp.how + " (batched)"; r.time = dt; r.smt2 = tmp.smt2; r.q = q
             return
     for (r, q, to) in pend:
         x = _decide_and_pack(ctx, r.name, q, to, None)
@@ -273,7 +273,7 @@ def _decide_and_pack(ctx, name, Q, timeout, upto, cvc5=None):
     negQ = z3.Not(Q)
     status, how, model, smt2 = decide(ctx, hyps, negQ, [Q], timeout, upto=upto, want_cvc5=ctx.opts.get("cvc5", True) if cvc5 is None else cvc5)
     r = Result(name, status, how, time.time() - t0, model, None)
-    r.q = Q if status == "cex" else None
+    r.q = Q
     if ctx.opts.get("keep_smt2") or status != "discharged":
         r.smt2 = smt2
     else:
@@ -440,3 +440,15 @@ def retry_models(ctx, Q, timeout_s=40.0):
                     break
         return res
     return fork_call(work, timeout_s) or []
+
+
+def export_smt2(ctx, Q):
+    """complete named encoding of one obligation (pre & path & all definitions & not Q) as SMT-LIB2 text"""
+    s = z3.Solver()
+    for h in list(ctx.pre) + ctx.path_cond():
+        s.add(h)
+    for d in ctx.defs:
+        for c in d.cons:
+            s.add(c)
+    s.add(z3.Not(Q))
+    return s.to_smt2()
